@@ -15,6 +15,7 @@ from .stmt import StmtMixin
 from .call import CallMixin, Frame, LOG_METHODS
 from .builtins import BuiltinMixin
 from .program import Program, BindError
+from . import lists as L
 
 MUTATORS = {'append', 'pop', 'insert', 'remove', 'clear', 'extend', 'add', 'discard', 'update', 'setdefault', 'sort'}
 FILE_METHODS = {'write', 'seek', 'read', 'truncate'}
@@ -97,6 +98,40 @@ class Engine(CoreMixin, ExprMixin, StmtMixin, CallMixin, BuiltinMixin):
         self.assume(a >= c)
         self.st.alloc0 = a
         self.st.alloc_k = 0
+        self.assume_heap_closed()
+
+    def assume_heap_closed(self, selfv=None):
+        '''Heap well-formedness (true of every real heap): a reference stored in an
+        allocated object, or in a container held by `self`, denotes an object allocated
+        before now.  Needed to separate fresh allocations from everything reachable.'''
+        c = self.alloc_counter()
+        for sname, sc in self.spec.schemas.items():
+            if sname.startswith('pkt:'):
+                continue
+            for fn, ft in sc.fields.items():
+                inner = ft.inner if isinstance(ft, TOpt) else ft
+                if not isinstance(inner, (TRef, TPkt)):
+                    continue
+                key = (sname, fn)
+                if key not in self.st.heap and key not in self.h0 and selfv is None:
+                    continue
+                arr = self.heap_arr(key, ft)
+                r = z3.Int('hc_r')
+                val = z3.Select(arr, r)
+                if isinstance(ft, TOpt):
+                    body = z3.Or(ft.is_none(val), z3.And(ft.val(val) > 0, ft.val(val) < c))
+                else:
+                    body = z3.And(val > 0, val < c)
+                self.assume(z3.ForAll([r], z3.Implies(z3.And(r > 0, r < c), body), patterns=[val]))
+        sv = selfv if selfv is not None else (self.frame.locals.get('self') if self.frame else None)
+        if sv is not None and isinstance(sv.t, TRef):
+            for sc in self.spec.schema_chain(sv.t.cls):
+                for fn, ft in sc.fields.items():
+                    if isinstance(ft, (TList, TSet, TDict)):
+                        et = ft.elem if isinstance(ft, (TList, TSet)) else ft.v
+                        if isinstance(et, (TRef, TPkt)) or isinstance(ft, TList):
+                            arr = self.heap_arr((sc.name, fn), ft)
+                            self.assume_wf(V(ft, z3.Select(arr, sv.z)))
 
     def havoc(self, locs, fields, ghosts):
         StmtMixin.havoc(self, locs, fields, ghosts)
@@ -374,8 +409,21 @@ class Engine(CoreMixin, ExprMixin, StmtMixin, CallMixin, BuiltinMixin):
         elif kind == 'signal':
             ghosts.update(self.spec.notes.get('signal_ghosts', ['signals']))
 
-    def havoc_fields_all(self):
-        pass
+    def clause_reads(self, node, _seen=None):
+        '''Field and ghost names a specification expression mentions (macros expanded).'''
+        out = set()
+        seen = _seen if _seen is not None else set()
+        for n in ast.walk(node):
+            if isinstance(n, ast.Attribute):
+                if isinstance(n.value, ast.Name) and n.value.id == 'ghost':
+                    out.add('ghost.' + n.attr)
+                else:
+                    out.add(n.attr)
+            elif isinstance(n, ast.Call) and isinstance(n.func, ast.Name) and n.func.id in self.spec.specfuncs:
+                if n.func.id not in seen:
+                    seen.add(n.func.id)
+                    out |= self.clause_reads(self.spec.specfuncs[n.func.id][1], seen)
+        return out
 
     # --------------------------------------------------------------- locate
     def locate(self, fs):
@@ -439,6 +487,21 @@ class Engine(CoreMixin, ExprMixin, StmtMixin, CallMixin, BuiltinMixin):
             # what they talk about (or the contract asks for them): an untouched clause is
             # re-established by identity and only slows every query down.  Found by iteration.
             self.quant_assumed = set(fs.d.get('inv_use', []))
+            self.all_quant_inv = set()
+            if fs.handler:
+                try:
+                    self.frame = Frame(fdef.name, module, ci, fdef, fs)
+                    _l, wfields, wghosts = self.write_set(fdef.body, None)
+                    wnames = set(wfields) | {'ghost.' + g for g in wghosts}
+                    sch = fs.inv_schema or (self.spec.schema_for_pyclass(fs.module, fs.qualname.rsplit('.', 1)[0]).name
+                                            if '.' in fs.qualname and not fs.self_type else None)
+                    if fs.self_type:
+                        sch = self.spec.schema_of_type(parse_type(fs.self_type))
+                    for c in (self.spec.all_invariants(sch) if sch else []):
+                        if '*' in wfields or (self.clause_reads(c.node) & wnames):
+                            self.quant_assumed.add(c.label)
+                except Unsupported:
+                    pass
             for _round in range(4):
                 self.inv_touched = set()
                 self.obs, self.ob_order = {}, []
@@ -458,6 +521,12 @@ class Engine(CoreMixin, ExprMixin, StmtMixin, CallMixin, BuiltinMixin):
                     if self.inv_touched - self.quant_assumed:
                         break
                 if not (self.inv_touched - self.quant_assumed):
+                    # anything left open may need a quantified clause that was not assumed
+                    open_obs = any(self.obs[k].status != 'discharged' for k in self.ob_order)
+                    rest = self.all_quant_inv - self.quant_assumed
+                    if open_obs and rest and not stack:
+                        self.quant_assumed |= rest
+                        continue
                     break
                 self.quant_assumed |= self.inv_touched
             res.notes.append('quantified invariants assumed: %s' % sorted(self.quant_assumed))
@@ -521,8 +590,10 @@ class Engine(CoreMixin, ExprMixin, StmtMixin, CallMixin, BuiltinMixin):
             zc = truthy(self.spec_eval(c.node))
             self.inv_entry[c.label] = zc
             from .core import has_quantifier
-            if has_quantifier(zc) and c.label not in self.quant_assumed:
-                continue
+            if has_quantifier(zc):
+                self.all_quant_inv.add(c.label)
+                if c.label not in self.quant_assumed:
+                    continue
             self.assume(zc)
         self.cover(self.unit_id + '/requires')
         if self.covers.get(self.unit_id + '/requires') == 'unreachable':
@@ -535,6 +606,8 @@ class Engine(CoreMixin, ExprMixin, StmtMixin, CallMixin, BuiltinMixin):
                         continue
                     arr = self.heap_arr((sc.name, fn), ft)
                     watch.append(('self.' + fn, V(ft, z3.Select(arr, fr.locals['self'].z))))
+        if 'self' in fr.locals and fr.locals['self'].t is not TPy:
+            self.assume_heap_closed(fr.locals['self'])
         self.old = self.st.copy()
         self.old_locals = dict(fr.locals)
         self.run_ghost(fs.ghost_entry)
@@ -572,12 +645,23 @@ class Engine(CoreMixin, ExprMixin, StmtMixin, CallMixin, BuiltinMixin):
             self.ghost_ok = False
             self.frame.locals.pop('ghost', None)
 
+    def params_at_entry(self):
+        '''In postconditions a parameter name denotes the argument value (the body may
+        have re-bound the local); the rebound locals stay visible to ghost code under
+        their own names only if they are not parameters.'''
+        for k, v in (self.old_locals or {}).items():
+            self.frame.locals[k] = v
+
     def check_normal(self, fs, rv, invs):
         fr = self.frame
+        self.params_at_entry()
         self.cover(self.unit_id + '/normal_exit')
         rts = self.cur_case.get('returns', fs.returns) if self.cur_case else fs.returns
         rt = parse_type(rts) if rts else None
         if rt is not None:
+            if isinstance(rv.t, TOpt) and rv.t.inner == rt:
+                self.ob('return_type', 'result_not_None', z3.Not(rv.t.is_none(rv.z)), props=fs.props)
+                rv = V(rt, rv.t.val(rv.z))
             try:
                 fr.locals['result'] = coerce(rv, rt)
             except Unsupported:
@@ -586,6 +670,14 @@ class Engine(CoreMixin, ExprMixin, StmtMixin, CallMixin, BuiltinMixin):
         else:
             fr.locals['result'] = rv
         self.run_ghost(fs.ghost_exit)
+        dec = self.decorator_info(fr.fdef) if fr.fdef is not None else None
+        if dec is not None and dec[0] == 'method' and dec[2]:
+            # C18: the value returned by a D-Bus method marshals as its declared out_signature
+            from .dbus_sig import split_signature, conforms
+            parts = split_signature(dec[2])
+            if len(parts) == 1:
+                self.ob('dbus_signature', 'return_%s' % dec[2].replace('{', '_').replace('}', '_'),
+                        conforms(self, rv, parts[0]), props=('C18',))
         for exc, rs in fs.raises.items():
             if rs.iff and rs.when is not None:
                 w = truthy(self.old_eval(rs.when))
@@ -622,6 +714,7 @@ class Engine(CoreMixin, ExprMixin, StmtMixin, CallMixin, BuiltinMixin):
             self.frame.locals = saved_loc
 
     def check_exceptional(self, fs, exc, invs):
+        self.params_at_entry()
         match = None
         for name, rs in fs.raises.items():
             if exc_is_subclass(exc.cls, name):
@@ -690,6 +783,8 @@ def _sb_length(eng, v):
 
 
 def _sb_slice(eng, s, lo, hi):
+    if isinstance(s.t, TList):
+        return V(s.t, L.l_slice(s.t, s.z, lo.z, hi.z))
     return V(s.t, seq_slice(s.z, lo.z, hi.z))
 
 
@@ -728,11 +823,15 @@ def _sb_empty_set(eng, s):
 
 def _sb_last(eng, s):
     et = TInt if s.t is TBytes else s.t.elem
+    if isinstance(s.t, TList):
+        return V(et, L.l_get(s.t, s.z, L.l_len(s.t, s.z) - 1))
     return V(et, s.z[z3.Length(s.z) - 1])
 
 
 def _sb_at(eng, s, i):
     et = TInt if s.t is TBytes else s.t.elem
+    if isinstance(s.t, TList):
+        return V(et, L.l_get(s.t, s.z, i.z))
     return V(et, s.z[i.z])
 
 
@@ -757,8 +856,9 @@ def _sb_eqv(eng, a, b):
 
 def _sb_no_dup(eng, s):
     i, j = z3.Int('nd_i'), z3.Int('nd_j')
-    return mk_bool(z3.ForAll([i, j], z3.Implies(z3.And(0 <= i, i < j, j < z3.Length(s.z)), s.z[i] != s.z[j]),
-                             patterns=[z3.MultiPattern(s.z[i], s.z[j])]))
+    a, b = L.l_get(s.t, s.z, i), L.l_get(s.t, s.z, j)
+    return mk_bool(L.forall([i, j], z3.Implies(z3.And(0 <= i, i < j, j < L.l_len(s.t, s.z)), a != b),
+                            multi=[(a, b)]))
 
 
 def _sb_contains(eng, s, x):
@@ -768,6 +868,24 @@ def _sb_contains(eng, s, x):
 def _sb_alloc_before(eng, r):
     '''reference existed in the pre-state'''
     return mk_bool(z3.And(r.z > 0, r.z < eng.old.alloc0 + eng.old.alloc_k))
+
+
+def _sb_key_index(eng, d, k):
+    from .builtins import dict_ix_fn
+    return mk_int(dict_ix_fn(d.t)(d.z, coerce(k, d.t.k).z))
+
+
+def _sb_is_int_str(eng, s):
+    return mk_bool(TStr.sort().is_of_int(s.z))
+
+
+def _sb_int_of_str(eng, s):
+    return mk_int(TStr.sort().int_val(s.z))
+
+
+def _sb_dict_conforms(eng, d, sig):
+    from .dbus_sig import conforms
+    return mk_bool(conforms(eng, d, sig.py[1]))
 
 
 def _sb_dict_put(eng, d, k, v):
@@ -788,7 +906,8 @@ def _sb_cbtag(eng, name):
     return mk_int(func_tag(name.py[1]))
 
 
-SPEC_BUILTINS = {'cbtag': _sb_cbtag, 'dict_put': _sb_dict_put, 'dict_del': _sb_dict_del,'length': _sb_length, 'slice': _sb_slice, 'is_none': _sb_is_none, 'unwrap': _sb_unwrap,
+SPEC_BUILTINS = {'cbtag': _sb_cbtag, 'dict_put': _sb_dict_put, 'dict_del': _sb_dict_del,
+                 'key_index': _sb_key_index, 'is_int_str': _sb_is_int_str, 'int_of_str': _sb_int_of_str, 'dict_conforms': _sb_dict_conforms,'length': _sb_length, 'slice': _sb_slice, 'is_none': _sb_is_none, 'unwrap': _sb_unwrap,
                  'some': _sb_some, 'dom': _sb_dom, 'lookup': _sb_lookup, 'set_add': _sb_set_add,
                  'set_remove': _sb_set_remove, 'is_empty_set': _sb_empty_set, 'last': _sb_last, 'at': _sb_at,
                  'str_of': _sb_str_of, 'flag': _sb_flag, 'band': _sb_band, 'eqv': _sb_eqv, 'no_dup': _sb_no_dup,
